@@ -62,6 +62,75 @@ def _fold_guard_returns(body: list, parents: dict) -> list:
     return body
 
 
+def _tail_returns_ok(body: list) -> bool:
+    """Every `return` of the body is in tail position (nothing of the function can run after it except `finally`),
+    so `return E` may be rewritten `target = E` with control falling off the end."""
+
+    def ok(stmts: list, tail: bool) -> bool:
+        for i, st in enumerate(stmts):
+            last = tail and i == len(stmts) - 1
+            if isinstance(st, ast.Return):
+                if not last:
+                    return False
+            elif isinstance(st, ast.If):
+                if not (ok(st.body, last) and ok(st.orelse, last)):
+                    return False
+            elif isinstance(st, (ast.With, ast.AsyncWith)):
+                if not ok(st.body, last):
+                    return False
+            elif isinstance(st, ast.Try):
+                has_ret_in_body = any(isinstance(n, ast.Return) for b in st.body for n in ast.walk(b))
+                if has_ret_in_body and st.orelse:
+                    return False
+                if any(isinstance(n, ast.Return) for b in st.finalbody for n in ast.walk(b)):
+                    return False
+                if not (ok(st.body, last and not st.orelse) and ok(st.orelse, last) and all(ok(h.body, last) for h in st.handlers)):
+                    return False
+            elif isinstance(st, (ast.FunctionDef, ast.AsyncFunctionDef, ast.ClassDef)):
+                continue
+            elif any(isinstance(n, ast.Return) for n in ast.walk(st)):
+                return False  # inside a loop / match: not handled
+        return True
+
+    return ok(body, True)
+
+
+def _replace_returns(stmts: list, tgt, parents: dict, like: ast.stmt) -> list:
+    """Copy of the statement list with every `return E` replaced by `tgt = E` (containers on the way shallow-copied)."""
+    out = []
+    for st in stmts:
+        if isinstance(st, ast.Return):
+            if st.value is None:
+                out.append(ast.copy_location(ast.Pass(), st))
+                continue
+            t2 = copy.copy(tgt)
+            a = ast.copy_location(ast.Assign(targets=[t2], value=st.value), st)
+            parents[t2] = a
+            if st in parents:
+                parents[a] = parents[st]
+            out.append(a)
+            continue
+        if isinstance(st, (ast.FunctionDef, ast.AsyncFunctionDef, ast.ClassDef)) or not any(isinstance(n, ast.Return) for n in ast.walk(st)):
+            out.append(st)
+            continue
+        st2 = copy.copy(st)
+        for name in ("body", "orelse", "finalbody"):
+            lst = getattr(st, name, None)
+            if isinstance(lst, list) and lst and all(isinstance(x, ast.stmt) for x in lst):
+                setattr(st2, name, _replace_returns(lst, tgt, parents, like))
+        if getattr(st, "handlers", None):
+            nh = []
+            for hd in st.handlers:
+                h2 = copy.copy(hd)
+                h2.body = _replace_returns(hd.body, tgt, parents, like)
+                nh.append(h2)
+            st2.handlers = nh
+        if st in parents:
+            parents[st2] = parents[st]
+        out.append(st2)
+    return out
+
+
 def _call_in(st: ast.stmt):
     """(form, call, target) for the three recognised statement forms."""
     v = None
@@ -69,10 +138,14 @@ def _call_in(st: ast.stmt):
     tgt = None
     if isinstance(st, ast.Expr):
         v, form = st.value, "expr"
-    elif isinstance(st, ast.Assign) and len(st.targets) == 1 and isinstance(st.targets[0], ast.Name):
+    elif isinstance(st, ast.Assign) and len(st.targets) == 1 and (isinstance(st.targets[0], ast.Name) or (isinstance(st.targets[0], ast.Tuple) and all(isinstance(x, ast.Name) for x in st.targets[0].elts))):
         v, form, tgt = st.value, "assign", st.targets[0]
     elif isinstance(st, ast.Return) and st.value is not None:
         v, form = st.value, "return"
+    if form == "expr" and isinstance(v, ast.Yield) and v.value is not None:
+        inner = v.value.value if isinstance(v.value, ast.Await) else v.value
+        if isinstance(inner, ast.Call):
+            return "yield", inner, v
     if v is None:
         return None
     if isinstance(v, ast.Await):
@@ -139,13 +212,22 @@ def inline(ctx, f: FuncInfo, want: Callable[[FuncInfo], bool] | None = None) -> 
         # leading early-return guards `if c: return` become `if c: pass / else: <rest>` (same test node, same order)
         if form == "expr":
             body = _fold_guard_returns(body, parents)
-        # returns: only a final one for expr/assign forms
+        # returns: only a final one for expr/assign forms - or, for a value, every return in tail position
+        yield_node = None
+        if form == "yield":
+            yield_node = tgt
+            tgt = ast.copy_location(ast.Name(id="__inl_value", ctx=ast.Store()), st)
+            form = "assign"
         rets = [n for s_ in body for n in ast.walk(s_) if isinstance(n, ast.Return)]
         final_ret = body[-1] if body and isinstance(body[-1], ast.Return) else None
+        tail_mode = False
         if form in ("expr", "assign"):
             if any(r is not final_ret for r in rets):
-                return None
-            if form == "assign" and (final_ret is None or final_ret.value is None):
+                if form == "assign" and isinstance(tgt, ast.Name) and all(r.value is not None for r in rets) and _tail_returns_ok(body):
+                    tail_mode = True
+                else:
+                    return None
+            if form == "assign" and not tail_mode and (final_ret is None or final_ret.value is None):
                 return None
         # name hygiene: helper locals / parameters must not capture different caller variables
         h_locals = _names_bound(h.node) - set(h.params)
@@ -159,17 +241,43 @@ def inline(ctx, f: FuncInfo, want: Callable[[FuncInfo], bool] | None = None) -> 
             ast.fix_missing_locations(asg)
             parents[asg.targets[0]] = asg
             pre.append(asg)
-        if h_locals & (caller_names - ({tgt.id} if tgt is not None else set())):
+        tgt_names = set() if tgt is None else {tgt.id} if isinstance(tgt, ast.Name) else {x.id for x in tgt.elts}
+        if h_locals & (caller_names - tgt_names):
             return None
         out = list(pre)
-        core = body[:-1] if (final_ret is not None and form in ("expr", "assign")) else body
-        out += rebuild(core, depth + 1, active + (h,))
-        if form == "assign":
-            if not (isinstance(final_ret.value, ast.Name) and final_ret.value.id == tgt.id):
-                asg = ast.copy_location(ast.Assign(targets=[tgt], value=final_ret.value), st)
+        if tail_mode:
+            out += rebuild(_replace_returns(body, tgt, parents, st), depth + 1, active + (h,))
+        else:
+            core = body[:-1] if (final_ret is not None and form in ("expr", "assign")) else body
+            out += rebuild(core, depth + 1, active + (h,))
+        if form == "assign" and not tail_mode:
+            rv = final_ret.value
+            if isinstance(tgt, ast.Tuple) and isinstance(rv, ast.Tuple) and len(rv.elts) == len(tgt.elts) and not any(isinstance(x, ast.Starred) for x in rv.elts):
+                # `a, b = (a, e)`: element-wise, identity elements dropped - unless an element reads a name another one rebinds
+                pairs = [(t, v) for t, v in zip(tgt.elts, rv.elts) if not (isinstance(v, ast.Name) and v.id == t.id)]
+                bound = {t.id for t, _ in pairs}
+                if len(pairs) > 1 and any(bound & _names_used(v) for _, v in pairs):
+                    out.append(ast.copy_location(ast.Assign(targets=[tgt], value=rv), st))
+                else:
+                    for t, v in pairs:
+                        t2 = copy.copy(t)
+                        a1 = ast.copy_location(ast.Assign(targets=[t2], value=v), st)
+                        parents[t2] = a1
+                        out.append(a1)
+            elif not (isinstance(rv, ast.Name) and isinstance(tgt, ast.Name) and rv.id == tgt.id):
+                asg = ast.copy_location(ast.Assign(targets=[tgt], value=rv), st)
                 out.append(asg)
         elif form == "expr" and final_ret is not None and final_ret.value is not None:
             out.append(ast.copy_location(ast.Expr(value=final_ret.value), final_ret))
+        if yield_node is not None:
+            y2 = copy.copy(yield_node)
+            y2.value = ast.copy_location(ast.Name(id="__inl_value", ctx=ast.Load()), st)
+            e2 = ast.copy_location(ast.Expr(value=y2), st)
+            parents[y2] = e2
+            parents[y2.value] = y2
+            if st in parents:
+                parents[e2] = parents[st]
+            out.append(e2)
         inlined.append(h.qualname)
         return out
 
